@@ -84,7 +84,7 @@ def src(e):
     if k == "paren":
         return "(%s)" % src(e["e"])
     if k == "ref":
-        return "&" + src(e["e"])
+        return "&" + src(e.get("e") or e.get("p"))
     if k == "field":
         return "%s.%s" % (src(e["e"]), e["m"])
     if k == "tuple":
